@@ -467,15 +467,18 @@ def initSt (c : Cfg) : St :=
 
 def splitSpaces (s : String) : List String := (s.splitOn " ").filter (· ≠ "")
 
+/-- the `call` op: invoke the API function — a new `MonadIO` and a fresh target cell, nothing else -/
+def callStep (fl : Flags) (d : ApiDef) (st : St) (ps : List (Str × Val)) (body : Option Body) : St :=
+  { st with ios := st.ios ++ [apiCall fl st.api d ps body st.w.targets.length],
+            w := { st.w with targets := st.w.targets ++ [([], 0)] } }
+
 def runOp (fl : Flags) (c : Cfg) (st : St) (op : String) : St × Str :=
   match splitSpaces op with
   | ["call", ps, body] =>
     match c.apiDef with
     | none => (st, "bad-ctor".toList)
     | some d =>
-      let io := apiCall fl st.api d (parseParams ps) (parseBody body) st.w.targets.length
-      ({ st with ios := st.ios ++ [io], w := { st.w with targets := st.w.targets ++ [([], 0)] } },
-        "io ".toList ++ (toString st.w.log.length).toList)
+      (callStep fl d st (parseParams ps) (parseBody body), "io ".toList ++ (toString st.w.log.length).toList)
   | ["eval", idx, f, r] =>
     match st.ios[idx.toNat?.getD 0]? with
     | none => (st, "noio".toList)
